@@ -23,7 +23,7 @@ fi
 echo "### suite with change ($which)" >> "$log"
 rc=0
 if [ "$which" = root ] || [ "$which" = both ]; then
-  go test -vet=off -count=1 -timeout 40m ./... 2>&1 | grep -E "^(ok|FAIL|---|panic)" >> "$log"; [ "${PIPESTATUS[0]}" = 0 ] || rc=1
+  go test -vet=off -count=1 -timeout 40m ./... 2>&1 | tee "$out/suite_full.log" | grep -E "^(ok|FAIL|---|panic)" >> "$log"; [ "${PIPESTATUS[0]}" = 0 ] || rc=1
 fi
 if [ "$which" = v2 ] || [ "$which" = both ]; then
   (cd v2 && go test -vet=off -count=1 -timeout 90m ./... 2>&1 | grep -E "^(ok|FAIL|---|panic)" >> "$log"; [ "${PIPESTATUS[0]}" = 0 ]) || rc=1
